@@ -15,6 +15,7 @@ package main
 import (
 	"bytes"
 	"encoding/json"
+	"errors"
 	"fmt"
 	"os"
 	"os/exec"
@@ -58,9 +59,7 @@ func runC17(c *Ctx) error {
 			ln = strings.TrimSpace(ln)
 			if strings.HasPrefix(ln, "github.com/markkurossi/mpc/") {
 				site = strings.TrimPrefix(ln, "github.com/markkurossi/mpc/")
-				if i := strings.Index(site, "("); i > 0 {
-					site = site[:i]
-				}
+				site = strings.TrimSuffix(site, "()")
 				break
 			}
 		}
@@ -168,6 +167,21 @@ type c17Event struct {
 	Seed int
 }
 
+// failRd serves [left] reads and then fails: Garble reads 16 bytes for R and
+// 16 bytes per input wire, so left = 0 fails at R, left = k >= 1 at input wire k-1.
+type failRd struct {
+	r    *RNG
+	left int
+}
+
+func (f *failRd) Read(p []byte) (int, error) {
+	if f.left <= 0 {
+		return 0, errors.New("entropy source failed")
+	}
+	f.left--
+	return f.r.Read(p)
+}
+
 func copyWires(w []ot.Wire) []ot.Wire { return append([]ot.Wire(nil), w...) }
 func copyGates(g [][]ot.Label) [][]ot.Label {
 	r := make([][]ot.Label, len(g))
@@ -272,6 +286,7 @@ func runC17Child(c *Ctx) error {
 			h    int
 			seed uint64
 			x    []bool
+			fk   int // gfail: the reader fails after fk reads
 		}
 		progs := make([][]pop, M)
 		for t := 0; t < M; t++ {
@@ -280,7 +295,11 @@ func runC17Child(c *Ctx) error {
 			for i := 0; i < n; i++ {
 				k := r.Intn(100)
 				switch {
-				case nh == 0 || k < 40:
+				case nh > 0 && k < 8:
+					// a Garble that fails: at R, at the first input label, in the middle of them
+					fk := []int{0, 1, 1 + r.Intn(ni)}[r.Intn(3)]
+					progs[t] = append(progs[t], pop{kind: "gfail", seed: r.U64(), fk: fk})
+				case nh == 0 || k < 44:
 					progs[t] = append(progs[t], pop{kind: "garble", h: nh, seed: r.U64(), x: randBits(r, ni)})
 					nh++
 				case k < 65:
@@ -298,6 +317,69 @@ func runC17Child(c *Ctx) error {
 		calls := make([][]*c17Call, M)
 		var failMu sync.Mutex
 		fail := func(key, what string, rep interface{}) { failMu.Lock(); c.Fail(key, what, rep); failMu.Unlock() }
+		// ---- prelude, sequential, as "goroutine" M: failing Garble calls (failing reader;
+		// every third round also one invalid gate Op at the end of the circuit, restored before
+		// anything else runs), then two overlapping garblings that stay unreleased while the
+		// goroutines run.
+		type preH struct {
+			g     *circuit.Garbled
+			wires []ot.Wire
+			gates [][]ot.Label
+		}
+		var pre []preH
+		preFail := func(site int, rd *failRd) {
+			g, err := circ.Garble(rd, key)
+			logEv(c17Event{Kind: 3, T: M, A: uint64(site)})
+			c.Hist(fmt.Sprintf("failing-garble:site%d", site))
+			if err == nil || g != nil {
+				fail("c17:garble:no-error", "Garble with a failing entropy source / an invalid gate returned no error",
+					map[string]interface{}{"round": round, "site": site})
+			}
+		}
+		preN := 0
+		if round%3 == 0 && len(circ.Gates) > 0 {
+			// the pool must exist before the circuit is modified (its slab size is computed
+			// from the gate kinds when the pool is created)
+			g0, err := circ.Garble(&blockLog{r: NewRNG(r.U64())}, key)
+			if err != nil {
+				return fmt.Errorf("prelude Garble: %v", err)
+			}
+			logEv(c17Event{Kind: 0, T: M, A: uint64(g0.VerifScratchID()), Seed: preN})
+			logEv(c17Event{Kind: 1, T: M, A: uint64(preN)})
+			g0.Release()
+			preN++
+			last := len(circ.Gates) - 1
+			saved := circ.Gates[last].Op
+			circ.Gates[last].Op = circuit.Operation(200)
+			preFail(3, &failRd{r: NewRNG(r.U64()), left: 1 << 30})
+			circ.Gates[last].Op = saved
+		}
+		for _, fk := range []int{0, 1, 1 + r.Intn(ni)}[:r.Range(1, 3)] {
+			site := 2
+			if fk == 0 {
+				site = 0
+			}
+			preFail(site, &failRd{r: NewRNG(r.U64()), left: fk})
+		}
+		for x := 0; x < 2; x++ {
+			g, err := circ.Garble(&blockLog{r: NewRNG(r.U64())}, key)
+			if err != nil {
+				return fmt.Errorf("prelude Garble: %v", err)
+			}
+			logEv(c17Event{Kind: 0, T: M, A: uint64(g.VerifScratchID()), Seed: preN})
+			preN++
+			pre = append(pre, preH{g, copyWires(g.Wires), copyGates(g.Gates)})
+		}
+		preCheck := func(when string) {
+			for x, h := range pre {
+				if !sameWires(h.g.Wires, h.wires) || !sameGates(h.g.Gates, h.gates) {
+					fail("c17:garbling-changed-before-release", "Wires/Gates of an unreleased Garbled differ from what Garble returned ("+when+")",
+						map[string]interface{}{"round": round, "goroutine": "prelude", "handle": x})
+				}
+			}
+		}
+		preCheck("after the second overlapping Garble")
+
 		start := make(chan struct{})
 		var wg sync.WaitGroup
 		for t := 0; t < M; t++ {
@@ -340,6 +422,17 @@ func runC17Child(c *Ctx) error {
 								return
 							}
 							call.Comp = JoinOutputs(circ, comp)
+						case "gfail":
+							g, err := circ.Garble(&failRd{r: NewRNG(o.seed), left: o.fk}, key)
+							site := 2
+							if o.fk == 0 {
+								site = 0
+							}
+							logEv(c17Event{Kind: 3, T: t, A: uint64(site)})
+							if err == nil || g != nil {
+								fail("c17:garble:no-error", "Garble with a failing entropy source returned no error",
+									map[string]interface{}{"round": round, "goroutine": t, "op": idx})
+							}
 						case "release":
 							h := hs[o.h]
 							if !h.released {
@@ -388,6 +481,7 @@ func runC17Child(c *Ctx) error {
 		}
 		close(start)
 		wg.Wait()
+		preCheck("at the end of the round")
 
 		// ---- each call against the same call run alone on a fresh copy of the circuit
 		nGarble, nEval := 0, 0
@@ -465,6 +559,7 @@ func runC17Child(c *Ctx) error {
 
 		// ---- ownership history: scratch ids numbered by first appearance
 		ids := map[uint64]int{}
+		nextID := 0               // a failed Garble reserves a number for the scratch it may have created
 		owner := map[int]string{} // scratch -> live handle
 		var evs []SX
 		live := 0
@@ -474,7 +569,8 @@ func runC17Child(c *Ctx) error {
 			case 0:
 				s, ok := ids[e.A]
 				if !ok {
-					s = len(ids)
+					s = nextID
+					nextID++
 					ids[e.A] = s
 				}
 				hk := fmt.Sprintf("%d/%d", e.T, e.Seed)
@@ -493,9 +589,12 @@ func runC17Child(c *Ctx) error {
 				evs = append(evs, L(I(1), I(e.T), I(int(e.A))))
 			case 2:
 				evs = append(evs, L(I(2), I(e.T), I(int(e.A))))
+			case 3:
+				nextID++
+				evs = append(evs, L(I(3), I(e.T), I(int(e.A)), I(1)))
 			}
 		}
-		c.Case(L(I(1), I(M), L(evs...)), L(I(1), I(len(ids)), I(live)))
+		c.Case(L(I(1), I(M+1), L(evs...)), L(I(1), I(nextID), I(live)))
 		c.Hist(fmt.Sprintf("goroutines:%d", M))
 		c.Hist(fmt.Sprintf("scratch-reuse:%v", len(ids) < nGarble))
 		if round < 3 {
